@@ -100,10 +100,11 @@ func usesOfGlobal(f *ssa.Function, collect func(g *ssa.Global, u globalUse)) {
 }
 
 func c20(c *core.Ctx) map[string]interface{} {
-	c.Explanation = "Static shared-state analysis for concurrent use of the codecs and security functions (C20). Decided: (R20.state) over the VTA whole-program call graph, every package-level variable of the repository's own packages that any function reachable from the listed entry points (NGAP/APER/NAS encode+decode, NASEncode/NASDecode, key derivation, NASEncrypt/NASMacCalculate) touches is classified; a variable is accepted only if it is immutable after initialisation: written only by package initialisers, never address-escaping to a callee, and of a kind whose loaded value cannot be mutated through (scalars, arrays/slices of scalars that are only indexed, reflect.Type descriptors, logrus entries which are internally locked). Any other reachable package-level variable - including synchronised caches such as sync.Map or hand-rolled one-entry caches - is shared mutable state and is reported with its writers/escapes; (R20.go) the repository's own packages start no goroutine, use no channel and no sync primitive (so there is no internal ordering to argue about); (R20.arg) informational: callee-side writes to caller-owned buffers. For code without goroutines and locks, absence of shared mutable state reachable from the entry points is the whole content of 'race-free and schedule-independent for different UEs'. NOT decided: races inside third-party dependencies (logrus, standard library)."
+	c.Explanation = "Static shared-state analysis for concurrent use of the codecs and security functions (C20). Decided: (R20.state) over the VTA whole-program call graph, every package-level variable of the repository's own packages that any function reachable from the listed entry points (NGAP/APER/NAS encode+decode, NASEncode/NASDecode, key derivation, NASEncrypt/NASMacCalculate) touches is classified; a variable is accepted only if it is immutable after initialisation: written only by package initialisers, never address-escaping to a callee, and of a kind whose loaded value cannot be mutated through (scalars, arrays/slices of scalars that are only indexed, reflect.Type descriptors, logrus entries which are internally locked). Any other reachable package-level variable - including synchronised caches such as sync.Map or hand-rolled one-entry caches - is shared mutable state and is reported with its writers/escapes; (R20.go) the repository's own packages start no goroutine, use no channel and no sync primitive (so there is no internal ordering to argue about); (R20.arg) informational: callee-side writes to caller-owned buffers. For code without goroutines and locks, absence of shared mutable state reachable from the entry points is the whole content of 'race-free and schedule-independent for different UEs'. (R13.pure) message construction shares no buffer between messages except the announced PLMN octets (which the encoder only reads): the encoder masks the padding bits of a BIT STRING in the caller's buffer, so a BIT STRING buffer shared between the messages of two UEs would be written concurrently inside the codec. NOT decided: races inside third-party dependencies (logrus, standard library)."
 	c.Assumptions = []string{"logrus.Entry/Logger are safe for concurrent use (internal mutex)", "reflect.Type values are immutable", "distinct UEs use distinct RanUeContext values and distinct message buffers (the property's own hypothesis)"}
 	r20state(c)
 	r20go(c)
+	r13pure(c)
 	return nil
 }
 
@@ -659,6 +660,13 @@ func refMutation(v ssa.Value, depth int, seen map[ssa.Value]bool) (string, token
 				return how, p
 			}
 		case *ssa.Lookup:
+			if tup, isTuple := y.Type().(*types.Tuple); isTuple && y.X == v && tup.Len() > 0 && carriesRef(tup.At(0).Type()) {
+				// v, ok := m[k]
+				if how, p := refMutation(y, depth+1, seen); how != "" {
+					return how, p
+				}
+				continue
+			}
 			if y.X == v && carriesRef(y.Type()) {
 				if how, p := refMutation(y, depth+1, seen); how != "" {
 					return how, p
